@@ -484,6 +484,53 @@ def compare_concrete(got, want, tol: Tol, where, out, pb):
     raise Unsupported(f"compare_concrete: no rule for {type(want).__name__}")
 
 
+def obj_from_real_signal(interp, x, pb):
+    """Wrap a real signal as an interpreter object whose ghost record holds its public attributes."""
+    ci = interp.repo.get_class(f"pulsarbat.core.{type(x).__name__}")
+    o = Obj(ci)
+    g = {"data": arr_from_real(x.data), "sr": from_real(x.sample_rate, pb), "t0": from_real(x.start_time, pb), "meta": x.meta}
+    if isinstance(x, pb.RadioSignal):
+        g.update(cf=from_real(x.center_freq, pb), bw=from_real(x.chan_bw, pb), align=x.freq_align)
+    if isinstance(x, pb.DualPolarizationSignal):
+        g["pol"] = x.pol_type
+    o.ghost = g
+    o._real = x
+    o.fields["__real__"] = x
+    return o
+
+
+class ConcTheoremCtx(PathCtx):
+    enumerate_quantifiers = True
+
+    def __init__(self):
+        super().__init__()
+        self.failed = []
+
+    def oblige(self, name, goal, kind="post", meta=None):
+        g = goal
+        if is_sym(g):
+            g = V.conc(z3.simplify(g))
+        if g is not True:
+            self.failed.append(name)
+
+
+def concrete_theorems(interp, contract, real_result, args, kwargs, pb):
+    """Evaluate the property-level theorems of a contract on the real result (float tolerance)."""
+    if isinstance(real_result, pb.Signal):
+        res = obj_from_real_signal(interp, real_result, pb)
+    else:
+        res = from_real(real_result, pb)
+    ctx = ConcTheoremCtx()
+    c = SpecCtx(interp, ctx, contract)
+    old = V.CONC_TOL
+    V.CONC_TOL = 1e-9
+    try:
+        contract.theorems(c, res, *args, **kwargs)
+    finally:
+        V.CONC_TOL = old
+    return [Mismatch(n, "violated on the real result", "holds") for n in ctx.failed]
+
+
 # --------------------------------------------------------------------------- differential run
 
 def import_repo(root="/repo"):
@@ -570,6 +617,8 @@ def differential(interp, contract, inst, nm, pb, tol=None, real_call=None):
             try:
                 g = from_real(got.value, pb)
                 compare_concrete(g, want.value, tol, "result", mism, pb)
+                if contract.theorems is not None:
+                    mism.extend(concrete_theorems(interp, contract, got.value, args, kwargs, pb))
             except Unsupported as e:
                 return {"status": "skip", "why": f"result not comparable: {e}", **info}
     # frame: inputs unchanged is checked by the caller through snapshots when requested
